@@ -17,7 +17,7 @@ TECHNIQUE = "differential against an independent Euler interpreter (the scenario
 RULE = ("base model: 2 named lookups, 3 constants, arrayed converter, 2 stocks; 2 managers x 3 scenarios registered from ONE model object; "
         "operations: register scenario (constants / only-some points), batch run (equation subsets), session with begin-settings, "
         "steps with constant / points settings, session left open, cache reset, REST /run with settings (constants, points, runspecs), "
-        "evaluate base elements; ALL histories of length<=2 (quick) / <=3 (thorough) over a 13-letter alphabet + seeded random histories "
+        "evaluate base elements; ALL histories of length<=2 (quick) / <=3 (thorough) over a 14-letter alphabet + seeded random histories "
         "of length 4-14. distinct_nontrivial = distinct histories containing a points/constants change of one scenario followed by a "
         "comparison of another scenario that uses the same lookup/constant without overriding it.")
 ASSUMPTIONS = ["a scenario that received settings with an individual STEP is not compared with its own fresh build afterwards (whether step settings outlive the session is not stated); all OTHER scenarios and the base model still are",
@@ -31,7 +31,7 @@ BP2 = [[0.0, 0.5], [10.0, 4.0], [40.0, 7.0]]      # base_points of manager smB: 
 BASE = dict(constants=dict(c1=2.0, c2=1.0, c3=0.25), points=dict(p1=P1, p2=P2), run=(0.0, 5.0, 1.0))
 EQS = ["s1", "s2", "f1", "b1", "c1", "c2", "c3", "total"]
 ALPHA = ["reg_const", "reg_pts", "run_A0", "sess_A0_const", "sess_B1_step_pts", "sess_A1_step_const", "reset_A0",
-         "rest_B0", "eval_base", "sess_open_A2", "rest_A0_runspecs", "sess_A01_step_first", "reg_again"]
+         "rest_B0", "eval_base", "sess_open_A2", "rest_A0_runspecs", "sess_A01_step_first", "reg_again", "rest_A1_start_later_then_zero"]
 
 
 def build(constants, points, run):
@@ -215,9 +215,19 @@ class World:
             self.merge(("smA", "s2"), st["smA"]["s2"])
             b.run_step()
             self.touched.append("points")
+        elif name == "rest_A1_start_later_then_zero":
+            # the scenario is moved to a later start time, run, and then moved back to a start time of exactly 0
+            for rs in ({"starttime": 2.0}, {"starttime": 0.0}):
+                st = {"smA": {"s1": {"runspecs": dict(rs)}}}
+                resp = self.client.post("/run", json={"scenario_managers": ["smA"], "scenarios": ["s1"], "equations": ["s1"], "settings": copy.deepcopy(st)})
+                self.counters["rest_requests"] = self.counters.get("rest_requests", 0) + 1
+                if resp.status_code != 200:
+                    return dict(kind="rest-status", status=resp.status_code, body=resp.get_data(as_text=True)[:200])
+                self.merge(("smA", "s1"), st["smA"]["s1"])
         elif name == "rest_A0_runspecs":
             # incl. a finer dt / a start time between the old grid points for a scenario that has already been run on the coarser grid
-            st = {"smA": {"s0": {"runspecs": r.choice([{"stoptime": 3.0}, {"dt": 0.5}, {"dt": 0.25, "stoptime": 2.0}, {"starttime": 0.5, "dt": 0.5}, {"dt": 0.125, "stoptime": 1.0}])}}}
+            st = {"smA": {"s0": {"runspecs": r.choice([{"stoptime": 3.0}, {"dt": 0.5}, {"dt": 0.25, "stoptime": 2.0}, {"starttime": 0.5, "dt": 0.5}, {"dt": 0.125, "stoptime": 1.0},
+                                                                   {"starttime": 0.0, "stoptime": 5.0, "dt": 1.0}, {"starttime": 0.0}, {"starttime": 2.0}])}}}      # incl. back to a start time of 0
             resp = self.client.post("/run", json={"scenario_managers": ["smA"], "scenarios": ["s0"], "equations": ["s1"], "settings": copy.deepcopy(st)})
             self.counters["rest_requests"] = self.counters.get("rest_requests", 0) + 1
             if resp.status_code != 200:
